@@ -8,6 +8,7 @@ and the TAP003 ports of the ends-per-settings / progress-only-after-success theo
 * Everything here is about the models of `Model/AgentsTap.lean`; nothing in the models changed.
 -/
 import PrimaiteModel.Props.C19
+import PrimaiteModel.Model.AgentsParams
 namespace Primaite.Agents
 
 /-! ## 8. Execution slots of a threshold-scheduled agent (generic) -/
@@ -176,7 +177,7 @@ theorem step_fire (c : Cfg) (s : St) (t : Int) (i : In) (hd : s.dead = false) (h
   · exact Or.inl rfl
   · rename_i herr
     right
-    cases hh : pyIndex s.hist s.curT with
+    cases hh : lookBack s with
     | none =>
       exfalso; apply herr
       simp [getAction, hex, hh, St.raise]
@@ -481,6 +482,11 @@ theorem preGuard_hist (c : Cfg) (s : St) :
   have b := hp (handleLogin s)
   exact ⟨by rw [b.1, a.1], by rw [b.2, a.2]⟩
 
+theorem lookBack_preGuard (c : Cfg) (s : St) : lookBack (preGuardHandlers c s) = lookBack s := by
+  have hq := preGuard_hist c s
+  unfold lookBack
+  rw [hq.1, hq.2]
+
 theorem executes_preGuard (c : Cfg) (s : St) (t : Int) : executes (preGuardHandlers c s) t = executes s t := by
   have hp := preGuard_fields c s
   simp only [executes, hp.2.2.1, hp.2.2.2]
@@ -522,7 +528,7 @@ theorem step_fire (c : Cfg) (s : St) (t : Int) (i : In) (hd : s.dead = false) (h
   · exact Or.inl rfl
   · rename_i herr
     right
-    cases hh : pyIndex (preGuardHandlers c s).hist (preGuardHandlers c s).curT with
+    cases hh : lookBack (preGuardHandlers c s) with
     | none =>
       exfalso; apply herr
       have hex' : executes (preGuardHandlers c s) t = true := by rw [executes_preGuard]; exact hex
@@ -643,9 +649,13 @@ example :
   unfold exploitAct; split <;> simp
 @[simp] theorem con_exploitFinish (s : St) : (exploitFinish s).concluded = s.concluded := by
   unfold exploitFinish; split <;> simp
-@[simp] theorem con_exploit (c : Cfg) (s : St) : (exploit c s).concluded = s.concluded := by
-  unfold exploit; repeat' split
+@[simp] theorem con_exploitBody (c : Cfg) (s : St) : (exploitBody c s).concluded = s.concluded := by
+  unfold exploitBody; repeat' split
   all_goals simp [St.raise]
+@[simp] theorem con_exploitEnter (s : St) : (exploitEnter s).concluded = s.concluded := (exploitEnter_fields s).2.2.2
+@[simp] theorem con_exploit (c : Cfg) (i : In) (s : St) : (exploit c i s).concluded = s.concluded := by
+  unfold exploit; repeat' split
+  all_goals simp
 @[simp] theorem con_access (c : Cfg) (i : In) (s : St) : (access c i s).concluded = s.concluded := by
   unfold access; repeat' split
   all_goals simp
@@ -790,7 +800,7 @@ theorem core_terminal_prefix (c : Cfg) (s : St) (h : Hist) (hterm : s.cur = .suc
 
 theorem core_stops (c : Cfg) (s : St) (t : Int) (i : In) (h : Hist)
     (hrep : c.repeatKillChain = false) (hterm : s.cur = .succeeded ∨ s.cur = .failed)
-    (hex : executes s t = true) (hh : pyIndex s.hist s.curT = some h) :
+    (hex : executes s t = true) (hh : lookBack s = some h) :
     (getActionCore c s t i).1.concluded = true ∧
     ((getActionCore c s t i).1.cur = .succeeded ∨ (getActionCore c s t i).1.cur = .failed) ∧
     (getActionCore c s t i).2 = Act.nothing := by
@@ -826,7 +836,7 @@ theorem core_stops (c : Cfg) (s : St) (t : Int) (i : In) (h : Hist)
 SUCCEEDED or FAILED sets `actions_concluded`, keeps the stage, and returns do-nothing. -/
 theorem C19_tap3_stops (c : Cfg) (s : St) (t : Int) (i : In) (h : Hist)
     (hrep : c.repeatKillChain = false) (hterm : s.cur = .succeeded ∨ s.cur = .failed)
-    (hex : executes s t = true) (hh : pyIndex s.hist s.curT = some h) :
+    (hex : executes s t = true) (hh : lookBack s = some h) :
     (getAction c s t i).1.concluded = true ∧
     ((getAction c s t i).1.cur = .succeeded ∨ (getAction c s t i).1.cur = .failed) ∧
     (getAction c s t i).2 = Act.nothing := by
@@ -834,11 +844,11 @@ theorem C19_tap3_stops (c : Cfg) (s : St) (t : Int) (i : In) (h : Hist)
   have hq := preGuard_hist c s
   unfold getAction
   exact core_stops c (preGuardHandlers c s) t i h hrep (by rw [hp.1]; exact hterm)
-    (by rw [executes_preGuard]; exact hex) (by rw [hq.1, hq.2]; exact hh)
+    (by rw [executes_preGuard]; exact hex) (by rw [lookBack_preGuard]; exact hh)
 
 theorem core_restarts (c : Cfg) (s : St) (t : Int) (i : In) (h : Hist)
     (hrep : c.repeatKillChain = true) (hterm : s.cur = .succeeded ∨ s.cur = .failed)
-    (hex : executes s t = true) (hh : pyIndex s.hist s.curT = some h) :
+    (hex : executes s t = true) (hh : lookBack s = some h) :
     (getActionCore c s t i).1.concluded = false ∧
     ((getActionCore c s t i).1.cur = .notStarted ∨ (getActionCore c s t i).1.cur = .reconnaissance) := by
   have hcon : s.concluded = false := by simp [executes] at hex; exact hex.2
@@ -871,14 +881,14 @@ SUCCEEDED or FAILED puts the agent back to NOT_STARTED (on the main path straigh
 `actions_concluded`. -/
 theorem C19_tap3_restarts (c : Cfg) (s : St) (t : Int) (i : In) (h : Hist)
     (hrep : c.repeatKillChain = true) (hterm : s.cur = .succeeded ∨ s.cur = .failed)
-    (hex : executes s t = true) (hh : pyIndex s.hist s.curT = some h) :
+    (hex : executes s t = true) (hh : lookBack s = some h) :
     (getAction c s t i).1.concluded = false ∧
     ((getAction c s t i).1.cur = .notStarted ∨ (getAction c s t i).1.cur = .reconnaissance) := by
   have hp := preGuard_fields c s
   have hq := preGuard_hist c s
   unfold getAction
   exact core_restarts c (preGuardHandlers c s) t i h hrep (by rw [hp.1]; exact hterm)
-    (by rw [executes_preGuard]; exact hex) (by rw [hq.1, hq.2]; exact hh)
+    (by rw [executes_preGuard]; exact hex) (by rw [lookBack_preGuard]; exact hh)
 
 /-! ### progress only after success -/
 
@@ -889,7 +899,7 @@ theorem succ_ne_notStarted (x : Stage) (h : x.chain = true) : x.succ ≠ .notSta
 
 theorem core_progress_only_after_success (c : Cfg) (s : St) (t : Int) (i : In)
     (hch : s.cur.chain = true) (hadv : (getActionCore c s t i).1.cur = s.cur.succ) :
-    executes s t = true ∧ ∃ h, pyIndex s.hist s.curT = some h ∧ (h.resp.ok = true ∨ s.cur = .planning) := by
+    executes s t = true ∧ ∃ h, lookBack s = some h ∧ (h.resp.ok = true ∨ s.cur = .planning) := by
   have hne : s.cur.succ ≠ s.cur := by cases hc : s.cur <;> simp_all [Stage.succ, Stage.chain]
   unfold getActionCore at hadv
   split at hadv
@@ -934,14 +944,60 @@ look-back response (`history[current_timestep]`) was a success — except in PLA
 after a failed response (the "already installed" exception, as coded: it applies to *any* failure in PLANNING). -/
 theorem C19_tap3_progress_only_after_success (c : Cfg) (s : St) (t : Int) (i : In)
     (hch : s.cur.chain = true) (hadv : (getAction c s t i).1.cur = s.cur.succ) :
-    executes s t = true ∧ ∃ h, pyIndex s.hist s.curT = some h ∧ (h.resp.ok = true ∨ s.cur = .planning) := by
+    executes s t = true ∧ ∃ h, lookBack s = some h ∧ (h.resp.ok = true ∨ s.cur = .planning) := by
   have hp := preGuard_fields c s
   have hq := preGuard_hist c s
   unfold getAction at hadv
   have := core_progress_only_after_success c (preGuardHandlers c s) t i (by rw [hp.1]; exact hch)
     (by rw [hp.1]; exact hadv)
-  rw [executes_preGuard, hq.1, hq.2, hp.1] at this
+  rw [executes_preGuard, lookBack_preGuard, hp.1] at this
   exact this
 
 end Tap3
+/-! ## 11. RandomAgent -/
+
+/-- **RandomAgent acts only with actions of its configured action map**: whatever integer the space's sampler
+returns, the agent either raises (empty map / index outside the map) or returns the entry `k < len(action_map)` of the
+map it was configured with. -/
+theorem C19_random_agent_in_map (n k i : Nat) (h : randomAgentChoice n k = .chose i) : i = k ∧ i < n := by
+  unfold randomAgentChoice at h
+  split at h
+  · cases h
+  · split at h
+    · cases h; exact ⟨rfl, by assumption⟩
+    · cases h
+
+/-- …and it does act (no exception) whenever the sampler stays inside `Discrete(len(action_map))`. -/
+theorem C19_random_agent_total (n k : Nat) (h : k < n) : randomAgentChoice n k = .chose k := by
+  unfold randomAgentChoice
+  rw [if_neg (by omega), if_pos h]
+
+/-! ## 12. Translator tie for the deepening round -/
+
+/-- Every `get_action` under game/agent accepts exactly the arguments `PrimaiteGame.apply_agent_actions` passes
+(`agent.get_action(obs, timestep=self.step_counter)`).  Before the repair of F-C19-1 `RandomAgent.get_action(self)`
+did not, and a scenario with a `random-agent` raised `TypeError` in its first step. -/
+theorem C19_gen_get_action_signatures :
+    (Gen.Agents.getActionParams.all fun e => e.2 == getActionSignature) = true ∧
+    Gen.Agents.gameGetActionCall = gameCall ∧
+    (Gen.Agents.getActionParams.map (·.1)).contains "RandomAgent" = true := by decide
+
+/-- `_tap_return_handler` answers "success" without reading the history exactly when `timestep >= len(self.history)`
+(`lookBack`), otherwise it reads `history[timestep].response.status` (F-C19-2). -/
+theorem C19_gen_tap_return_handler :
+    Gen.Agents.tapReturnEmptyGuard = "timestep >= len(self.history)" ∧
+    Gen.Agents.tapReturnLookup = "self.history[timestep].response.status != 'success'" := by decide
+
+/-- `TAP003._exploit` tries `EXPLOIT.probability` while the *stage progress* is PENDING and sets the stage progress to
+IN_PROGRESS afterwards (`Tap3.exploit`, F-C19-3). -/
+theorem C19_gen_tap3_exploit_trial :
+    Gen.Agents.tap3ExploitTrialGuard = "self.current_stage_progress == KillChainStageProgress.PENDING" ∧
+    Gen.Agents.tap3ExploitTrialProb = "self.config.agent_settings.kill_chain.EXPLOIT.probability" ∧
+    Gen.Agents.tap3ExploitTrialSet = "self.current_stage_progress = KillChainStageProgress.IN_PROGRESS" := by decide
+
+/-- The source expression of every parameter of every action the TAPs can return is the one pinned in
+`Model/AgentsParams.lean` (and implemented by the rig's parameter oracle). -/
+theorem C19_gen_action_params :
+    Gen.Agents.tap1ActionParams = Tap1.actionParams ∧ Gen.Agents.tap3ActionParams = Tap3.actionParams := ⟨rfl, rfl⟩
+
 end Primaite.Agents
